@@ -1,5 +1,7 @@
 mod cmd_backend;
 mod cmd_stages;
+mod cmd_fun2core;
+mod cmd_rt;
 mod consts;
 mod gen_axlin;
 mod pipe;
@@ -75,6 +77,8 @@ fn main() {
         }
         "pm" => cmd_pm(num(2, 1), num(3, 100) as usize, &mut *out),
         "stages" => cmd_stages::cmd_stages(num(2, 1), num(3, 0) as usize, args.get(5..).unwrap_or(&[]), &mut *out),
+        "fun2core" => cmd_fun2core::cmd_fun2core(num(2, 1), num(3, 0) as usize, args.get(5..).unwrap_or(&[]), &mut *out),
+        "rt" => cmd_rt::cmd_rt(num(2, 1), num(3, 100) as usize, &mut *out),
         c => { eprintln!("unknown command {c}"); std::process::exit(2); }
     }
     out.flush().unwrap();
